@@ -2,3 +2,5 @@ import CbProofs.Preproc
 import CbProofs.PreprocExpand
 import CbProofs.FlatIndex
 import CbProofs.RefPres
+import CbProofs.RefInv
+import CbProofs.Ladder
